@@ -21,12 +21,13 @@ fragment `FullStmt`.  Here they are inside (`FullDStmt`), under hypotheses that 
    leaves no trace: `groupAt used` (the token after `TBLPROPERTIES`, the second token after `PARTITIONED`, is a bracket group).
    Witness: `PARTITIONED BY x`.
 4. `parse_accounted_ddl_partial` for `pStatements` over ALL classes; the token hypotheses are collected in `runsOK d f g ts` (Bool):
-   the statement loop is followed only to DELIMIT the statements, and the token run of every statement whose result is a
-   CREATE TABLE ( … ) / ALTER TABLE satisfies `ddlRunOK` (2. and the token half of 3.).  Nothing is asked of other classes.
+   the statement loop is followed only to DELIMIT the statements (and `alterLoop` to delimit the operations of an ALTER TABLE): the
+   token run of every statement whose result is a CREATE TABLE ( … ) satisfies `ddlRunOK` (2. and the token half of 3.), the run of
+   every operation of an ALTER TABLE satisfies `NoRep` (`alterOK`).  `stmtOK` chooses by the class of the result; nothing is asked
+   of the other classes.
 
 Missing (the `_partial`): the count of attribute keywords is over ALL top-level tokens of the run, also those inside a DEFAULT
-expression (`DEFAULT comment COMMENT 'x'` is excluded although nothing is lost); for ALTER TABLE `NoRep` is asked of the whole
-statement (two `ADD`s with the same attribute are outside); multiplicities are not proved (set level, as in `C08A`); F-C08-5 (a
+expression (`DEFAULT comment COMMENT 'x'` is excluded although nothing is lost); multiplicities are not proved (set level, as in `C08A`); F-C08-5 (a
 bracket group taken as a name) is accounted for as a whole (`stray_inserted_ddl_partial` excludes it by `NoGroupWholeD`).
 `String` operations do not reduce in the kernel: the witnesses are `#guard`s (evaluated tests); the theorems are kernel-checked.
 -/
@@ -62,15 +63,20 @@ theorem create_opts_accounted_partial (T : List String) (d : Gen.D) (f g : Nat) 
     ∃ used, ts = used ++ r ∧ (OptOK c used → FullCT c' = true → FullCT c = true ∧ (Sub (tCTb c') T → AccAllD T used ∧ Sub (tCTb c) T)) :=
   createOpts_acc T d f g c ts c' r h
 theorem create_table_accounted_partial (d : Gen.D) (f : Nat) (ts : List Tok) (s : Stmt) (r : List Tok) (h : pCreateTable d f ts = .ok (s, r)) :
-    ∃ used, ts = used ++ r ∧ (ddlRunOK used = true → FullDStmt s = true → AccAllD (tStmt s) used) := by
+    ∃ used, ts = used ++ r ∧ (stmtOK d f ts s used = true → FullDStmt s = true → AccAllD (tStmt s) used) := by
   obtain ⟨u, e, k⟩ := pCreateTable_acc (tStmt s) d f ts s r h
-  exact ⟨u, e, fun h1 h2 => k (fun _ => h1) h2 (by simp [PM.Sub])⟩
+  exact ⟨u, e, fun h1 h2 => k h1 h2 (by simp [PM.Sub])⟩
+/-- what `stmtOK` asks: of a CREATE TABLE ( … ) result `ddlRunOK` of its run, of an ALTER TABLE result `alterOK` at its cursor -/
+theorem stmtOK_createTable (d : Gen.D) (f : Nat) (ts : List Tok) (c : CreateTable) (used : List Tok) :
+    stmtOK d f ts (.createTable c) used = ddlRunOK used := rfl
+theorem stmtOK_alter (d : Gen.D) (f : Nat) (ts : List Tok) (t : TableName) (ops : List AlterOp) (used : List Tok) :
+    stmtOK d f ts (.alter t ops) used = alterOK d f ts := rfl
 
 /-! ### 4. ALTER TABLE … ADD / MODIFY / CHANGE -/
 theorem alter_accounted_partial (d : Gen.D) (f : Nat) (ts : List Tok) (s : Stmt) (r : List Tok) (h : pAlter d f ts = .ok (s, r)) :
-    ∃ used, ts = used ++ r ∧ (ddlRunOK used = true → FullDStmt s = true → AccAllD (tStmt s) used) := by
+    ∃ used, ts = used ++ r ∧ (stmtOK d f ts s used = true → FullDStmt s = true → AccAllD (tStmt s) used) := by
   obtain ⟨u, e, k⟩ := pAlter_acc (tStmt s) d f ts s r h
-  exact ⟨u, e, fun h1 h2 => k (fun _ => h1) h2 (by simp [PM.Sub])⟩
+  exact ⟨u, e, fun h1 h2 => k h1 h2 (by simp [PM.Sub])⟩
 
 /-! ### 5. every statement class -/
 /-- every token of an accepted token list is accounted for (relation with runs) -/
@@ -80,7 +86,7 @@ theorem accountedD_of_accounted {ts : List Tok} {ss : List Stmt} (h : Accounted 
 
 /-- FULL STATEMENT (not proved; false: F-C08-4, F-C08-6, witnesses below): `pStatements d f ts = .ok ss → AccountedD ts ss`.
 Proved for results in `FullDStmts` (a Bool on the result; ALL statement classes) and token lists whose CREATE TABLE / ALTER TABLE
-statements satisfy `ddlRunOK` (`runsOK`, a Bool on the tokens, the parser is used to delimit the statements only). -/
+statements satisfy `stmtOK` (`runsOK`, a Bool on the tokens, the parser is used to delimit the statements / ALTER operations only). -/
 theorem parse_accounted_ddl_partial (d : Gen.D) (f : Nat) (ts : List Tok) (ss : List Stmt)
     (h : pStatements d f ts = .ok ss) (hf : FullDStmts ss = true) (hr : runsOK d f (ts.length + 1) ts = true) : AccountedD ts ss :=
   ((statementsLoop_acc (tStmts ss) d f (ts.length + 1) [] ts ss h hr hf).2 (by simp [PM.Sub])).1
@@ -214,11 +220,12 @@ def needsFull (d : Gen.D) (s w : String) : Bool :=
 #guard holds .MYSQL "CREATE TABLE IF NOT EXISTS db.t (a int NOT NULL AUTO_INCREMENT COMMENT 'x', b varchar(10) CHARACTER SET utf8 COLLATE utf8_bin DEFAULT 'q' NULL, c decimal(10, 2) UNSIGNED ZEROFILL DEFAULT 1 ON UPDATE now(1), g int GENERATED ALWAYS AS (a + 1) STORED, PRIMARY KEY (a), UNIQUE KEY uk (b(5), c) USING BTREE COMMENT 'k', KEY k2 (c) KEY_BLOCK_SIZE = 4, FULLTEXT KEY ft (b), CONSTRAINT fk1 FOREIGN KEY (a) REFERENCES p (id) ON DELETE CASCADE ON UPDATE SET NULL) ENGINE = InnoDB AUTO_INCREMENT = 7 DEFAULT CHARSET = utf8 ROW_FORMAT = DYNAMIC COLLATE = utf8_bin COMMENT = 'tbl' STATS_PERSISTENT = 1;"
 #guard holds .HIVE "CREATE TABLE t (a int COMMENT 'c', b string) COMMENT 'x' PARTITIONED BY (dt string COMMENT 'd') ROW FORMAT SERDE 'org.S' STORED AS INPUTFORMAT 'i' OUTPUTFORMAT 'o' LOCATION '/p' TBLPROPERTIES ('k.x' = 'v', a.b-c = d)"
 #guard holds .HIVE "CREATE TABLE t (a int) ROW FORMAT DELIMITED FIELDS TERMINATED BY ',' STORED AS TEXTFILE; CREATE TABLE u (b int COMMENT 'y') COMMENT 'z'"
-#guard holds .MYSQL "ALTER TABLE t ADD c int DEFAULT 1 COMMENT 'x', MODIFY d varchar(3) NOT NULL, CHANGE e f bigint, ADD KEY k (c), DROP COLUMN z; SELECT a FROM t"
+#guard holds .MYSQL "ALTER TABLE t ADD c int DEFAULT 1 COMMENT 'x', MODIFY d varchar(3) NOT NULL COMMENT 'y', CHANGE e f bigint DEFAULT 2, ADD KEY k (c), DROP COLUMN z; SELECT a FROM t"
 -- F-C08-4: the token hypothesis is needed (the result is in the fragment, the value is lost)
 #guard needsRuns .MYSQL "CREATE TABLE t (a int DEFAULT 17 DEFAULT 2)" "17"
 #guard needsRuns .MYSQL "CREATE TABLE t (a int) ENGINE = zzq9 ENGINE = b" "zzq9"
 #guard needsRuns .MYSQL "ALTER TABLE t ADD a int COMMENT 'zzq9' COMMENT 'b'" "zzq9"
+#guard needsRuns .MYSQL "ALTER TABLE t DROP COLUMN z, MODIFY a int DEFAULT 17 DEFAULT 2" "17"
 -- the same defect at a new site: a second PRIMARY KEY element overwrites the first
 #guard needsRuns .MYSQL "CREATE TABLE t (a int, b int, PRIMARY KEY (a(17)), PRIMARY KEY (b))" "17"
 -- F-C08-6 on the tokens: PARTITIONED BY x / TBLPROPERTIES x leave no trace in the result
